@@ -1,6 +1,177 @@
-//! C20 (stub)
+//! C20 — integer square root is the exact floor for every input.
+//!
+//! Oracle: `isqrt` (BigUint::sqrt) = the unique s with s^2 <= x < (s+1)^2. The checked forms are
+//! some exactly when s^2 == x, and then carry s.
+
 use super::prelude::*;
+use crypto_bigint::SquareRoot;
+
+/// Square-root corpus of a width: 0, 1, 2, 3, MAX, the neighbourhood of 2^(BITS-1), and for
+/// t = 2^j, 2^j +- 1 (every j up to BITS/2; this contains t = 2^(BITS/2) - 1) and random t the
+/// values t^2 - 1, t^2, t^2 + 1, t^2 + t (middle of the interval), t^2 + 2t (= (t+1)^2 - 1);
+/// then the generic edge corpus and random values.
+pub fn sqrt_inputs(c: &mut Ctx, limbs: usize) -> Vec<BigUint> {
+    let bits = 64 * limbs as u32;
+    let max = mask(bits);
+    let tmax = mask(bits / 2);
+    let mut v: Vec<BigUint> = Vec::new();
+    for s in 0u32..=8 {
+        v.push(BigUint::from(s));
+        v.push(&max - s);
+        v.push(pow2(bits - 1) + s);
+        v.push(pow2(bits - 1) - s);
+        v.push(pow2(bits - 2) + s);
+        v.push(pow2(bits - 2) - s);
+    }
+    let mut ts: Vec<BigUint> = Vec::new();
+    for j in 0..=bits / 2 {
+        ts.push(pow2(j) - 1u32);
+        ts.push(pow2(j));
+        ts.push(pow2(j) + 1u32);
+        // 2^j + 2^i: roots with two bits set
+        if j >= 2 {
+            ts.push(pow2(j) + pow2(c.below(j as usize) as u32));
+        }
+    }
+    for i in 0..c.iters / 2 {
+        let t = match i % 4 {
+            // random bit length
+            0 => c.rnd(limbs) >> (bits - 1 - c.below(bits as usize / 2) as u32),
+            // full-size roots
+            1 => &tmax - (c.rnd(limbs) >> (bits / 2 + 1 + c.below(bits as usize / 2 - 1) as u32)),
+            _ => c.rnd(limbs) >> (bits / 2),
+        };
+        ts.push(t);
+    }
+    for t in ts {
+        if t > tmax {
+            continue;
+        }
+        let sq = &t * &t;
+        if !sq.is_zero() {
+            v.push(&sq - 1u32);
+        }
+        v.push(&sq + 1u32);
+        v.push(&sq + &t);
+        v.push(&sq + &t + &t);
+        if &sq + &t + &t < max {
+            v.push(&sq + &t + &t + 1u32);
+        }
+        v.push(sq);
+    }
+    v.extend(c.inputs1(limbs));
+    v.retain(|x| *x <= max);
+    v
+}
+
+fn checked_exp(x: &BigUint) -> Option<BigUint> {
+    let s = isqrt(x);
+    if &s * &s == *x { Some(s) } else { None }
+}
+
+/// inputs of wide types: the ct root costs LOG2_BITS + 2 full divisions
+fn budget(limbs: usize) -> usize {
+    match limbs {
+        0..=4 => 1,
+        5..=16 => 8,
+        _ => 32,
+    }
+}
+
+// ---------------------------------------------------------------- Uint
+
+fn sqrt_ct<const L: usize>(c: &mut Ctx) {
+    for (i, x) in c.scaled(budget(L), |c| sqrt_inputs(c, L)).into_iter().enumerate() {
+        if c.done() {
+            return;
+        }
+        let u = bu::<L>(&x);
+        let s = isqrt(&x);
+        check!(c, call(|| u.sqrt()).map(|r| ub(&r)), s.clone(); x);
+        check!(c, call(|| opt(u.checked_sqrt())).map(|r| r.map(|r| ub(&r))), checked_exp(&x); x);
+        // the aliases route to the same code: a sample is enough for the wide types
+        if L <= 4 || i % 8 == 0 {
+            check!(c, call(|| u.wrapping_sqrt()).map(|r| ub(&r)), s.clone(); x);
+            check!(c, call(|| SquareRoot::sqrt(&u)).map(|r| ub(&r)), s; x);
+        }
+    }
+}
+
+fn sqrt_vartime<const L: usize>(c: &mut Ctx) {
+    for x in c.scaled(budget(L).min(4), |c| sqrt_inputs(c, L)) {
+        if c.done() {
+            return;
+        }
+        let u = bu::<L>(&x);
+        let s = isqrt(&x);
+        check!(c, call(|| u.sqrt_vartime()).map(|r| ub(&r)), s.clone(); x);
+        check!(c, call(|| opt(u.checked_sqrt_vartime())).map(|r| r.map(|r| ub(&r))), checked_exp(&x); x);
+        check!(c, call(|| u.wrapping_sqrt_vartime()).map(|r| ub(&r)), s.clone(); x);
+        check!(c, call(|| SquareRoot::sqrt_vartime(&u)).map(|r| ub(&r)), s; x);
+    }
+}
+
+// ---------------------------------------------------------------- BoxedUint
+
+fn boxed_ct_one(c: &mut Ctx, nl: usize, div: usize) {
+    for (i, x) in c.scaled(div, |c| sqrt_inputs(c, nl)).into_iter().enumerate() {
+        if c.done() {
+            return;
+        }
+        let u = bx(&x, nl);
+        let s = isqrt(&x);
+        check!(c, call(|| u.sqrt()).map(|r| xb(&r)), s.clone(); x, nl);
+        check!(c, call(|| opt(u.checked_sqrt())).map(|r| r.map(|r| xb(&r))), checked_exp(&x); x, nl);
+        if nl <= 4 || i % 8 == 0 {
+            check!(c, call(|| u.wrapping_sqrt()).map(|r| xb(&r)), s.clone(); x, nl);
+            check!(c, call(|| SquareRoot::sqrt(&u)).map(|r| xb(&r)), s; x, nl);
+        }
+    }
+}
+
+fn boxed_vt_one(c: &mut Ctx, nl: usize, div: usize) {
+    for x in c.scaled(div, |c| sqrt_inputs(c, nl)) {
+        if c.done() {
+            return;
+        }
+        let u = bx(&x, nl);
+        let s = isqrt(&x);
+        check!(c, call(|| u.sqrt_vartime()).map(|r| xb(&r)), s.clone(); x, nl);
+        check!(c, call(|| opt(u.checked_sqrt_vartime())).map(|r| r.map(|r| xb(&r))), checked_exp(&x); x, nl);
+        check!(c, call(|| u.wrapping_sqrt_vartime()).map(|r| xb(&r)), s.clone(); x, nl);
+        check!(c, call(|| SquareRoot::sqrt_vartime(&u)).map(|r| xb(&r)), s; x, nl);
+    }
+}
+
+fn boxed_ct(c: &mut Ctx) {
+    for nl in 1..=4 {
+        boxed_ct_one(c, nl, 4);
+    }
+}
+
+fn boxed_vt(c: &mut Ctx) {
+    for nl in 1..=4 {
+        boxed_vt_one(c, nl, 4);
+    }
+}
+
+fn boxed_ct_wide(c: &mut Ctx) {
+    boxed_ct_one(c, 5, 8);
+    boxed_ct_one(c, 20, 64);
+}
+
+fn boxed_vt_wide(c: &mut Ctx) {
+    boxed_vt_one(c, 5, 8);
+    boxed_vt_one(c, 20, 32);
+}
 
 pub fn cases() -> Vec<Case> {
-    Vec::new()
+    let mut v = Vec::new();
+    ucases!(v, "sqrt/checked_sqrt/wrapping_sqrt/SquareRoot::sqrt", sqrt_ct; 1, 2, 3, 4, 8, 16);
+    ucases!(v, "sqrt_vartime/checked_sqrt_vartime/wrapping_sqrt_vartime/SquareRoot::sqrt_vartime", sqrt_vartime; 1, 2, 3, 4, 8, 16);
+    case!(v, "BoxedUint::sqrt/checked_sqrt/wrapping_sqrt/SquareRoot::sqrt 1..=4 limbs", boxed_ct);
+    case!(v, "BoxedUint::sqrt_vartime/checked_sqrt_vartime/wrapping_sqrt_vartime/SquareRoot::sqrt_vartime 1..=4 limbs", boxed_vt);
+    case!(v, "BoxedUint::sqrt/checked_sqrt/wrapping_sqrt/SquareRoot::sqrt 5 and 20 limbs", boxed_ct_wide);
+    case!(v, "BoxedUint::sqrt_vartime/checked_sqrt_vartime/wrapping_sqrt_vartime/SquareRoot::sqrt_vartime 5 and 20 limbs", boxed_vt_wide);
+    v
 }
